@@ -12,13 +12,32 @@ import time
 
 import vlib
 
-SCEN = ["init", "once", "codemem", "run", "emulate"]
+SCEN = ["init", "once", "codemem", "run", "emulate", "generated"]
+
+
+def gen_flags():
+    """orcc output for the 'generated' scenario; returns the extra compiler flags for the xsched build"""
+    import hashlib
+    orcc = vlib.build_tool("orcc")
+    d = os.path.join(vlib.BUILD, "c08gen")
+    os.makedirs(d, exist_ok=True)
+    h = hashlib.sha256()
+    for name, opts, fn in (("gen_c_addw", ["--compat", "0.4.10", "--no-backup"], "xsched_gen_c.c"), ("gen_d_addw", [], "xsched_gen_d.c")):
+        src = os.path.join(d, name + ".orc")
+        open(src, "w").write(".function %s\n.dest 2 d1\n.source 2 s1\n.source 2 s2\naddw d1, s1, s2\n" % name)
+        out = os.path.join(d, fn + ".tmp%d" % os.getpid())
+        r = subprocess.run([orcc] + opts + ["--implementation", "-o", out, src], stdout=subprocess.PIPE, stderr=subprocess.STDOUT)
+        if r.returncode:
+            raise vlib.BuildError("orcc failed for the generated scenario: " + r.stdout.decode()[-500:])
+        h.update(open(out, "rb").read())
+        os.rename(out, os.path.join(d, fn))
+    return ["-I" + d, "-DXS_GEN", "-DXS_GEN_HASH=0x" + h.hexdigest()[:8]]
 
 
 def run(ctx):
     tier = ctx["tier"]
     t0 = time.time()
-    exe = vlib.build_engine("xsched", "plain")
+    exe = vlib.build_engine("xsched", "plain", extra_flags=gen_flags())
     scratch = vlib.scratch_dir("C08")
     env = vlib.scrub_env({"MALLOC_ARENA_MAX": "1"}, scratch=scratch)
     deadline = ctx["deadline"] or (600 if tier == "quick" else 2400)
@@ -27,14 +46,14 @@ def run(ctx):
     else:
         # measured (one process): codemem/2 threads bound 4 = 98 k schedules, emulate/2 bound 4 = 33 k, once/2 bound 4 = 12 k;
         # 3 threads at bound 3 exceed 10^5 schedules for once/codemem/emulate and are left to bound 2
-        deep = {"init": (8, 5), "run": (8, 5), "once": (6, 3), "codemem": (5, 2), "emulate": (5, 2)}
+        deep = {"init": (8, 5), "run": (8, 5), "once": (6, 3), "codemem": (5, 2), "emulate": (5, 2), "generated": (5, 2)}
         cfgs = [(s, 2, deep[s][0]) for s in SCEN] + [(s, 3, deep[s][1]) for s in SCEN]
     res = vlib.Results()
     # lower bounds first (each engine run iterates 0..bound when unpartitioned); the top bound is split into parts
     args = []
     for s, t, b in cfgs:
         args.append(["--scenario", s, "--threads", t, "--bound", b - 1, "--deadline", int(deadline)])
-        k = 12 if (s in ("codemem", "once")) else 4
+        k = 12 if (s in ("codemem", "once", "generated")) else 4
         for i in range(k):
             args.append(["--scenario", s, "--threads", t, "--bound", b, "--part", "%d/%d" % (i, k), "--deadline", int(deadline)])
     vlib.run_shards(exe, args, env, timeout=deadline * 1.5 + 60, res=res, label="xsched")
@@ -44,7 +63,7 @@ def run(ctx):
     tsan_runs = 0
     tsan_note = ""
     try:
-        texe = vlib.build_engine("xsched", "tsan")
+        texe = vlib.build_engine("xsched", "tsan", extra_flags=gen_flags())
         tenv = dict(env)
         tenv["TSAN_OPTIONS"] = "exitcode=97 halt_on_error=0 report_signal_unsafe=0"
         reps = 10 if tier == "quick" else 40
@@ -95,7 +114,7 @@ def replay(rep):
     if r.get("tsan"):
         print("re-run: bin/check C08 (ThreadSanitizer pass is free-running)")
         return 0
-    exe = vlib.build_engine("xsched", "plain")
+    exe = vlib.build_engine("xsched", "plain", extra_flags=gen_flags())
     scratch = vlib.scratch_dir("C08r")
     p = subprocess.run([exe, "--scenario", r["scenario"], "--threads", str(r["threads"]), "--replay", r["schedule"]],
                        stdout=subprocess.PIPE, env=vlib.scrub_env(scratch=scratch), timeout=120)
